@@ -11,6 +11,8 @@ import (
 	"context"
 	"encoding/base64"
 	"fmt"
+	"runtime"
+	"runtime/debug"
 	"sort"
 	"strings"
 	"testing"
@@ -32,10 +34,15 @@ type vfC14Case struct {
 	revsLimit  uint32
 	known13    bool
 	knownPromo bool
+	knownLeak  bool
+	dangling   bool // dangling stubs are part of this case's input alphabet (one case in three)
 
 	contents [][]byte
-	docIDs   []string
+	docIDs   []string // logical names (rendered); the stored key is prefix + name
+	prefix   string
 	docs     map[string]*vfC14Doc
+
+	dirtyDocs map[string]bool // documents written since the last check
 
 	ops        []string
 	n          int
@@ -69,8 +76,11 @@ func (c *vfC14Case) contentIndex(b []byte) int {
 	return len(c.contents) - 1
 }
 
-func (c *vfC14Case) key(docID string, content int) string {
-	return MakeAttachmentKey(AttVersion2, docID, vfC14Digest(c.contents[content]))
+// rid is the stored document id of a logical document name.
+func (c *vfC14Case) rid(doc string) string { return c.prefix + doc }
+
+func (c *vfC14Case) key(doc string, content int) string {
+	return MakeAttachmentKey(AttVersion2, c.rid(doc), vfC14Digest(c.contents[content]))
 }
 
 // vfC14PutRevID is the revision id Put documents for a body: generation + digest over parent and the
@@ -125,7 +135,9 @@ func (c *vfC14Case) drawContent(rt *rapid.T, label string) int {
 	return c.contentIndex(b)
 }
 
-func (c *vfC14Case) drawWrite(rt *rapid.T, label string) *vfC14Write {
+// drawWrite draws one client write on the current model state. guided: the write is to be the hooked
+// push of a guided window step - a replicator-style push of two new generations.
+func (c *vfC14Case) drawWrite(rt *rapid.T, label string, guided bool) *vfC14Write {
 	docID := rapid.SampledFrom(c.docIDs).Draw(rt, label+"doc")
 	d := c.docs[docID]
 	c.n++
@@ -188,9 +200,19 @@ func (c *vfC14Case) drawWrite(rt *rapid.T, label string) *vfC14Write {
 	default:
 		w.push = rapid.IntRange(0, 9).Draw(rt, label+"api") < 4
 	}
+	if guided {
+		if w.implicit {
+			// the pushing client names the revision it builds on
+			w.implicit, w.seen = false, ""
+			if win != nil {
+				w.parent = win.id
+			}
+		}
+		w.push = true
+	}
 	if w.push {
 		w.suffix = rapid.SampledFrom([]string{"0", "5", "a", "f", "z"}).Draw(rt, label+"sfx") + fmt.Sprintf("%03d", w.n)
-		if rapid.IntRange(0, 5).Draw(rt, label+"skip") == 0 {
+		if guided || rapid.IntRange(0, 5).Draw(rt, label+"skip") == 0 {
 			w.skip = 1
 		}
 	}
@@ -202,6 +224,32 @@ func (c *vfC14Case) drawWrite(rt *rapid.T, label string) *vfC14Write {
 		w.deleted = true
 		return w
 	}
+	c.drawAtts(rt, label, w, d, p)
+	return w
+}
+
+// drawGuidedHook: the window client pushes the intermediate revision (same revision id) of the hooked
+// two-generation push main, as a child of the same parent, with its own attachment changes.
+func (c *vfC14Case) drawGuidedHook(rt *rapid.T, label string, main *vfC14Write) *vfC14Write {
+	d := c.docs[main.doc]
+	c.n++
+	w := &vfC14Write{doc: main.doc, n: c.n, atts: map[string]vfC14AttSpec{}, push: true, parent: main.parent,
+		suffix: main.suffix + "i1"}
+	var p *vfC14Rev
+	if main.parent != "" {
+		p = d.revs[main.parent]
+	}
+	if p != nil && !p.deleted && rapid.IntRange(0, 9).Draw(rt, label+"del") == 0 {
+		w.deleted = true
+		return w
+	}
+	c.drawAtts(rt, label, w, d, p)
+	return w
+}
+
+// drawAtts draws the _attachments of a write whose parent revision is p (nil = none): per regular
+// name add / keep as stub / replace / drop, and now and then a dangling stub.
+func (c *vfC14Case) drawAtts(rt *rapid.T, label string, w *vfC14Write, d *vfC14Doc, p *vfC14Rev) {
 	stubOK := p != nil && !p.deleted && !p.noBody && d.isLeaf(p.id)
 	for _, name := range vfC14Names {
 		k := rapid.IntRange(0, 9).Draw(rt, label+"att-"+name)
@@ -217,7 +265,37 @@ func (c *vfC14Case) drawWrite(rt *rapid.T, label string) *vfC14Write {
 				asString: rapid.Bool().Draw(rt, label+name+"b64"), ctype: rapid.Bool().Draw(rt, label+name+"ct")}
 		}
 	}
-	return w
+	// dangling stub: a stub entry for a name the parent revision (a leaf whose body the client read)
+	// does not have - what a client sends after renaming an attachment locally, or with a stale view
+	if !c.dangling || !stubOK || rapid.IntRange(0, 5).Draw(rt, label+"dangling?") != 0 {
+		return
+	}
+	var cand []string
+	for _, name := range vfC14AllNames {
+		_, has := p.atts[name]
+		_, mine := w.atts[name]
+		if !has && !mine {
+			cand = append(cand, name)
+		}
+	}
+	if len(cand) == 0 {
+		return
+	}
+	name := rapid.SampledFrom(cand).Draw(rt, label+"dangling-name")
+	s := vfC14AttSpec{kind: vfC14AttDangling}
+	switch k := rapid.IntRange(0, 9).Draw(rt, label+"dangling-digest"); {
+	case k <= 5: // no digest at all
+	case k <= 7 && len(p.atts) > 0: // the digest of bytes the parent holds under another name ("rename")
+		names := vfSortedKeys(p.atts)
+		s.dDigest, s.content = true, p.atts[rapid.SampledFrom(names).Draw(rt, label+"dangling-of")].content
+	default:
+		s.dDigest, s.content = true, c.contentIndex(vfC14Pool[rapid.IntRange(0, len(vfC14Pool)-1).Draw(rt, label+"dangling-pool")])
+	}
+	if s.dDigest {
+		s.dLength = rapid.Bool().Draw(rt, label+"dangling-length")
+	}
+	s.dRevpos = rapid.SampledFrom([]int{0, 1, p.gen, p.gen + 1 + w.skip, p.gen + 4}).Draw(rt, label+"dangling-revpos")
+	w.atts[name] = s
 }
 
 // ---------------------------------------------------------------------------------------------
@@ -242,6 +320,17 @@ func (c *vfC14Case) body(w *vfC14Write, parentAtts map[string]vfC14Att) Body {
 				if s.ctype {
 					m["content_type"] = "application/octet-stream"
 				}
+			case vfC14AttDangling:
+				m["stub"] = true
+				if s.dDigest {
+					m["digest"] = vfC14Digest(c.contents[s.content])
+					if s.dLength {
+						m["length"] = float64(len(c.contents[s.content]))
+					}
+				}
+				if s.dRevpos > 0 {
+					m["revpos"] = float64(s.dRevpos)
+				}
 			case vfC14AttStub:
 				// what a client that read the parent sends back
 				pa := parentAtts[name]
@@ -263,12 +352,12 @@ func (c *vfC14Case) call(ctx context.Context, w *vfC14Write, newRev string, hist
 	kit.Guard(c.rt, vfC14ID, c.test, c.render, func() {
 		if w.push {
 			body[BodyRev] = newRev
-			doc, rev, err = c.env.Coll.PutExistingRevWithBody(ctx, w.doc, body, hist, false, ExistingVersionWithUpdateToHLV)
+			doc, rev, err = c.env.Coll.PutExistingRevWithBody(ctx, c.rid(w.doc), body, hist, false, ExistingVersionWithUpdateToHLV)
 		} else {
 			if !w.implicit && w.parent != "" {
 				body[BodyRev] = w.parent
 			}
-			rev, doc, err = c.env.Coll.Put(ctx, w.doc, body)
+			rev, doc, err = c.env.Coll.Put(ctx, c.rid(w.doc), body)
 		}
 	})
 	return rev, doc, err
@@ -321,6 +410,9 @@ func (c *vfC14Case) commit(p *vfC14Prepared, who string, rev string, doc *Docume
 		} else {
 			c.class("write-noop")
 		}
+		if w.hasDangling() {
+			c.class("dangling-stub-rejected")
+		}
 		c.ops = append(c.ops, fmt.Sprintf("%s %s -> %s", who, w.render(c.contents), what))
 		// P: data written by a failed write was never referenced; allowed residue
 		for _, ci := range w.dataContents() {
@@ -338,11 +430,24 @@ func (c *vfC14Case) commit(p *vfC14Prepared, who string, rev string, doc *Docume
 		c.harness("write %s returned revision %s, the documented id is %v", w.render(c.contents), rev, want)
 	}
 	pid := w.resolveParent(d)
-	wasLeaf := pid == "" || d.isLeaf(pid)
-	var parent *vfC14Rev
+	var parent, declared *vfC14Rev
 	if pid != "" {
 		parent = d.revs[pid]
+		declared = parent
 	}
+	// the revision the new one continues: the named parent, or - for a two-generation push whose
+	// intermediate revision another client has pushed in the meantime - that revision
+	continued := false
+	if w.skip == 1 {
+		pgen := 0
+		if declared != nil {
+			pgen = declared.gen
+		}
+		if ex := d.revs[w.intermediateIDs(pgen)[0]]; ex != nil {
+			parent, continued = ex, true
+		}
+	}
+	wasLeaf := parent == nil || d.isLeaf(parent.id)
 	r, aerr := d.apply(w, rev)
 	if aerr != nil {
 		c.harness("model cannot apply accepted write %s: %v", w.render(c.contents), aerr)
@@ -369,6 +474,72 @@ func (c *vfC14Case) commit(p *vfC14Prepared, who string, rev string, doc *Docume
 	}
 	if w.hasStub() {
 		c.class("stub-kept")
+	}
+	if w.hasDangling() {
+		// accepted: nothing was written under that name, the oracle ignores it; every other name of every
+		// leaf keeps its bytes, digest, length and data document
+		if w.danglingNoDigest() {
+			c.class("dangling-stub-accepted(no digest)")
+			if c.knownLeak && !d.tainted {
+				d.tainted = true
+				c.class("cleanup-not-asserted-after:" + vfC14SigLeak)
+				c.excluded = append(c.excluded, vfC14SigLeak)
+			}
+		} else {
+			c.class("dangling-stub-accepted(with digest)")
+		}
+		if declared != nil && len(declared.atts) > 0 {
+			kept := false
+			for _, a := range r.atts {
+				for _, pa := range declared.atts {
+					if a.content == pa.content {
+						kept = true
+					}
+				}
+			}
+			if kept && w.danglingNoDigest() {
+				c.class("dangling-stub(no digest)+parent-attachment-kept")
+				if !c.ccv {
+					c.class("dangling-stub(no digest)+parent-attachment-kept(sweep on)")
+				}
+			}
+		}
+	}
+	if continued {
+		// guided window write: this (retried) push continues the revision the window client committed
+		c.class("window-write=intermediate-revision-of-hooked-push")
+		var below map[string]vfC14Att
+		if declared != nil {
+			below = declared.atts
+		}
+		for _, pa := range parent.atts {
+			introduced, kept := true, false
+			for _, ba := range below {
+				if ba.content == pa.content {
+					introduced = false
+				}
+			}
+			for _, na := range r.atts {
+				if na.content == pa.content {
+					kept = true
+				}
+			}
+			if !introduced || kept {
+				continue
+			}
+			c.class("retry-drops-digest-introduced-in-window")
+			held := false
+			for _, l := range d.leaves() {
+				for _, la := range l.atts {
+					if la.content == pa.content {
+						held = true
+					}
+				}
+			}
+			if !held && !c.ccv {
+				c.class("retry-drops-digest-introduced-in-window(sweep on, no other holder)")
+			}
+		}
 	}
 	if w.deleted {
 		c.class("tombstone")
@@ -471,14 +642,14 @@ func (c *vfC14Case) shapes(d *vfC14Doc, w *vfC14Write) (s13, sPromo, promoCCV bo
 		if post == nil || post.id == r.id || pre == nil {
 			continue
 		}
-		if len(r.atts) > 0 {
+		if r.carries() {
 			s13 = true
 		}
 		if post.id == pre.id {
-			if len(post.atts) > 0 {
+			if post.carries() {
 				s13 = true
 			}
-		} else if len(post.atts) > 0 {
+		} else if post.carries() {
 			if c.ccv {
 				promoCCV = true // same shape with the sweep switched off: holds, stays in the domain
 			} else {
@@ -511,10 +682,27 @@ func (c *vfC14Case) shapesOfStep(main, hook *vfC14Write) (s13, sPromo, promoCCV 
 }
 
 // drawStep draws the write of a step and, in mode 2, the racing write.
+// mode 3 (guided window write): main is a replicator-style push of two new generations and the racing
+// client pushes exactly the intermediate revision of that push (same revision id, same parent) with
+// its own attachment changes - the retried push then continues the racing client's revision instead
+// of conflicting with it.
 func (c *vfC14Case) drawStep(rt *rapid.T, mode int, label string) (main, hook *vfC14Write) {
-	main = c.drawWrite(rt, "w"+label)
-	if mode == 2 {
-		hook = c.drawWrite(rt, "h"+label)
+	main = c.drawWrite(rt, "w"+label, mode == 3)
+	if mode == 3 {
+		hook = c.drawGuidedHook(rt, "g"+label, main)
+	} else if mode == 2 {
+		hook = c.drawWrite(rt, "h"+label, false)
+	}
+	if hook != nil {
+		if hook.doc == main.doc {
+			// a dangling stub is only sent against a parent the client read as a leaf (as every stub); the
+			// retried write of a same-document race is evaluated on a state the client has not seen
+			for name, s := range main.atts {
+				if s.kind == vfC14AttDangling {
+					delete(main.atts, name)
+				}
+			}
+		}
 		if hook.doc == main.doc && main.push && main.hasStub() {
 			// a stub is resolved against a parent the client read as a leaf; when the racing write can turn
 			// that parent into an interior revision the client re-sends the bytes instead (the db-level push
@@ -531,7 +719,8 @@ func (c *vfC14Case) drawStep(rt *rapid.T, mode int, label string) (main, hook *v
 }
 
 // stepWrite: mode 0 = plain write, 1 = the document write fails its first compare-and-swap (retry),
-// 2 = as 1 and another client's write (drawn independently on the same state) lands inside the window.
+// 2 = as 1 and another client's write (drawn independently on the same state) lands inside the window,
+// 3 = as 2 with the guided window write (see drawStep).
 func (c *vfC14Case) stepWrite(rt *rapid.T, mode int) {
 	c.rt = rt
 	var main, hook *vfC14Write
@@ -588,13 +777,17 @@ func (c *vfC14Case) stepWrite(rt *rapid.T, mode int) {
 				}
 				hookRan = true
 				rev, doc, err := c.call(c.env.Ctx, hook, ph.newRev, ph.hist, ph.parentAtts)
-				c.commit(ph, "race:", rev, doc, err)
+				who := "race:"
+				if mode == 3 {
+					who = "race[intermediate revision of the hooked push]:"
+				}
+				c.commit(ph, who, rev, doc, err)
 			}
 		}
 		plan = &vs.Plan{Rules: []vs.Rule{
-			{Type: vs.OpWriteWithXattrs, Key: main.doc, Nth: 1, Fault: f},
-			{Type: vs.OpWriteTombstoneWithXattrs, Key: main.doc, Nth: 1, Fault: f},
-			{Type: vs.OpWriteResurrectionWithXattrs, Key: main.doc, Nth: 1, Fault: f},
+			{Type: vs.OpWriteWithXattrs, Key: c.rid(main.doc), Nth: 1, Fault: f},
+			{Type: vs.OpWriteTombstoneWithXattrs, Key: c.rid(main.doc), Nth: 1, Fault: f},
+			{Type: vs.OpWriteResurrectionWithXattrs, Key: c.rid(main.doc), Nth: 1, Fault: f},
 		}}
 	}
 	c.w.Arm(plan)
@@ -602,7 +795,7 @@ func (c *vfC14Case) stepWrite(rt *rapid.T, mode int) {
 	rev, doc, err := c.call(mctx, main, pm.newRev, pm.hist, pm.parentAtts)
 	fired := 0
 	for _, op := range c.w.MarkedTrace() {
-		if op.Action == vs.FailCas && op.Key == main.doc {
+		if op.Action == vs.FailCas && op.Key == c.rid(main.doc) {
 			fired++
 		}
 	}
@@ -613,20 +806,32 @@ func (c *vfC14Case) stepWrite(rt *rapid.T, mode int) {
 		c.class("cas-retry")
 		if hookRan {
 			c.class("cas-retry-with-racing-write")
+			if mode == 3 {
+				c.class("cas-retry-with-guided-window-write")
+			}
 		}
 	}
 	c.commit(pm, who, rev, doc, err)
 	c.dirty = true
+	c.dirtyDocs[main.doc] = true
+	if hookRan {
+		c.dirtyDocs[hook.doc] = true
+	}
 }
 
 // ---------------------------------------------------------------------------------------------
 // oracle
 
-func (c *vfC14Case) checkAtts(docID, what string, body Body, want map[string]vfC14Att, withData bool) {
+// checkAtts compares the attachments a read shows with the model's. ignore: names of the revision under
+// which nothing was ever written (accepted dangling stubs) - the statement says nothing about them,
+// they may or may not be listed. doc is the logical document name.
+func (c *vfC14Case) checkAtts(doc, what string, body Body, want map[string]vfC14Att, ignore map[string]bool, withData bool) {
 	got := GetBodyAttachments(body)
 	var gotNames, wantNames []string
 	for k := range got {
-		gotNames = append(gotNames, k)
+		if !ignore[k] {
+			gotNames = append(gotNames, k)
+		}
 	}
 	for k := range want {
 		wantNames = append(wantNames, k)
@@ -670,26 +875,57 @@ func (c *vfC14Case) checkAtts(docID, what string, body Body, want map[string]vfC
 		if !bytes.Equal(data, content) {
 			c.fail("%s: attachment %q reads back %x, written %x", what, name, data, content)
 		}
-		raw, err := c.env.Coll.GetAttachment(c.env.Ctx, MakeAttachmentKey(AttVersion2, docID, vfC14Digest(content)))
-		if err != nil {
-			c.fail("%s: attachment %q: data document unreadable: %v", what, name, err)
-		}
-		if !bytes.Equal(raw, content) {
-			c.fail("%s: attachment %q: data document holds %x, written %x", what, name, raw, content)
-		}
+		c.checkData(doc, what, name, content)
 	}
+}
+
+// checkData reads one attachment the way the per-attachment GET does: the data document named by the
+// (already verified) digest of the revision's metadata.
+func (c *vfC14Case) checkData(doc, what, name string, content []byte) {
+	raw, err := c.env.Coll.GetAttachment(c.env.Ctx, MakeAttachmentKey(AttVersion2, c.rid(doc), vfC14Digest(content)))
+	if err != nil {
+		c.fail("%s: attachment %q: data document unreadable: %v", what, name, err)
+	}
+	if !bytes.Equal(raw, content) {
+		c.fail("%s: attachment %q: data document holds %x, written %x", what, name, raw, content)
+	}
+}
+
+// checkFull checks a read with all attachment bodies. A revision that lists an accepted dangling stub
+// may be unreadable in this form on the whole (the body of a name nothing was written under cannot be
+// loaded): that is outside the statement, counted, and every other name is then read one by one.
+func (c *vfC14Case) checkFull(doc, what string, full Body, err error, r *vfC14Rev) {
+	if err != nil {
+		if len(r.dangling) == 0 {
+			c.fail("%s with attachment bodies: %v", what, err)
+		}
+		c.class("observed:read-with-bodies-fails-on-revision-with-dangling-stub")
+		for _, name := range vfSortedKeys(r.atts) {
+			c.checkData(doc, what, name, c.contents[r.atts[name].content])
+		}
+		return
+	}
+	c.checkAtts(doc, what, full, r.atts, r.dangling, true)
 }
 
 func (c *vfC14Case) check() {
 	ctx := c.env.Ctx
 	coll := c.env.Coll
+	// the documents written since the last check are read in full; the data documents of all are checked
+	var dirty []string
 	for _, id := range c.docIDs {
+		if c.dirtyDocs[id] {
+			dirty = append(dirty, id)
+		}
+	}
+	c.dirtyDocs = map[string]bool{}
+	for _, id := range dirty {
 		d := c.docs[id]
 		if len(d.order) == 0 {
 			continue
 		}
 		// align the model's tombstoned leaves with what pruning left (tombstones carry no attachments)
-		real, err := coll.GetDocument(ctx, id, DocUnmarshalAll)
+		real, err := coll.GetDocument(ctx, c.rid(id), DocUnmarshalAll)
 		if err != nil {
 			c.harness("GetDocument(%s): %v", id, err)
 		}
@@ -733,11 +969,11 @@ func (c *vfC14Case) check() {
 			c.env.DBC.FlushRevisionCacheForTest()
 			tag = "uncached"
 		}
-		for _, id := range c.docIDs {
+		for _, id := range dirty {
 			d := c.docs[id]
 			for _, l := range d.leaves() {
 				what := fmt.Sprintf("GET %s?rev=%s (%s)", id, l.id, tag)
-				meta, err := coll.Get1xRevBody(ctx, id, l.id, false, nil)
+				meta, err := coll.Get1xRevBody(ctx, c.rid(id), l.id, false, nil)
 				if l.deleted {
 					if err == nil && len(GetBodyAttachments(meta)) > 0 {
 						c.fail("%s: tombstone shows attachments %v", what, GetBodyAttachments(meta))
@@ -747,22 +983,19 @@ func (c *vfC14Case) check() {
 				if err != nil {
 					c.fail("%s: live leaf revision is unreadable: %v", what, err)
 				}
-				c.checkAtts(id, what+" metadata", meta, l.atts, false)
-				full, err := coll.Get1xRevBody(ctx, id, l.id, false, []string{})
-				if err != nil {
-					c.fail("%s with attachment bodies: %v", what, err)
-				}
-				c.checkAtts(id, what, full, l.atts, true)
+				c.checkAtts(id, what+" metadata", meta, l.atts, l.dangling, false)
+				full, err := coll.Get1xRevBody(ctx, c.rid(id), l.id, false, []string{})
+				c.checkFull(id, what, full, err, l)
 			}
 			if len(d.order) == 0 {
 				continue
 			}
 			// the default read: whichever revision it names must show that revision's attachments
 			what := fmt.Sprintf("GET %s (%s)", id, tag)
-			cur, err := coll.Get1xRevBody(ctx, id, "", false, []string{})
+			cur, err := coll.Get1xRevBody(ctx, c.rid(id), "", false, []string{})
 			if err != nil {
 				if win := d.winner(); win != nil && !win.deleted {
-					c.fail("%s: %v although revision %s is live", what, err, win.id)
+					c.checkFull(id, what+" = "+win.id, nil, err, win)
 				}
 				continue
 			}
@@ -771,21 +1004,21 @@ func (c *vfC14Case) check() {
 			if r == nil {
 				c.harness("%s returned revision %q which the model does not know", what, rid)
 			}
-			c.checkAtts(id, what+" = "+rid, cur, r.atts, true)
+			c.checkFull(id, what+" = "+rid, cur, nil, r)
 		}
 	}
 	// attachment data documents: no loss ever; exactly the referenced set when cross-cluster versioning is off
-	snap, err := c.w.Snapshot(ctx)
-	if err != nil {
-		c.harness("snapshot: %v", err)
-	}
-	exists := map[string]bool{}
-	for _, row := range snap.Docs {
-		// (rosmar keeps its tombstone flag on a row that was deleted and then added again; a row
-		// exists when it has a value - that is what GetRaw answers)
-		if strings.HasPrefix(row.Key, base.Att2Prefix) && row.HasBody {
-			exists[row.Key] = true
+	// (every key a committed revision of the case ever referenced is looked up - a row exists when it
+	// has a value, which is what GetRaw answers)
+	exists := func(k string) bool {
+		_, _, err := coll.dataStore.GetRaw(ctx, k)
+		if err == nil {
+			return true
 		}
+		if !base.IsDocNotFoundError(err) {
+			c.harness("GetRaw(%s): %v", k, err)
+		}
+		return false
 	}
 	for _, id := range c.docIDs {
 		d := c.docs[id]
@@ -796,18 +1029,18 @@ func (c *vfC14Case) check() {
 			}
 		}
 		for _, k := range vfSortedKeys(ref) {
-			if !exists[k] {
+			if !exists(k) {
 				c.fail("attachment data %s of document %s is gone although leaf revision %s still references it", k, id, ref[k])
 			}
 		}
-		if c.ccv {
+		if c.ccv || d.tainted {
 			continue
 		}
 		for _, k := range vfSortedKeys(d.everRef) {
 			if _, needed := ref[k]; needed || d.residue[k] {
 				continue
 			}
-			if exists[k] {
+			if exists(k) {
 				c.fail("attachment data %s of document %s still exists although no leaf revision references it any more (cross-cluster versioning off)", k, id)
 			}
 		}
@@ -824,22 +1057,97 @@ func vfC14LeafIDs(d *vfC14Doc) []string {
 
 // ---------------------------------------------------------------------------------------------
 
-func vfC14OpenCase(t *testing.T, rt *rapid.T, test string, conflicts, ccv bool, revsLimit uint32) *vfC14Case {
+// vfC14Lease hands out one rosmar bucket to a run of consecutive cases: preparing a pool bucket (views)
+// costs more than a whole case, a database context on a prepared bucket next to nothing. Every case gets
+// its own database context, fault store and document keys (prefix), so cases do not see each other.
+type vfC14Lease struct {
+	t      *testing.T
+	tb     *base.TestBucket
+	uses   int
+	caseNo int
+}
+
+const vfC14CasesPerBucket = 40
+
+func (l *vfC14Lease) bucket() *base.TestBucket {
+	if l.tb != nil && l.uses >= vfC14CasesPerBucket {
+		l.release()
+	}
+	if l.tb == nil {
+		l.tb = base.GetTestBucket(l.t)
+		l.uses = 0
+	}
+	l.uses++
+	l.caseNo++
+	return l.tb
+}
+
+func (l *vfC14Lease) release() {
+	if l.tb != nil {
+		l.tb.Close(base.TestCtx(l.t))
+		l.tb = nil
+	}
+}
+
+// vfC14OpenOn is vfOpen on a bucket that stays open: a fresh database context (product options, explicit
+// sync function) behind its own fault store.
+func vfC14OpenOn(t *testing.T, tb *base.TestBucket, mutate func(o *DatabaseContextOptions), wrap func(b base.Bucket) base.Bucket) (env *vfEnv, err error) {
+	defer func() {
+		if p := recover(); p != nil {
+			err = fmt.Errorf("panic while opening database: %v", p)
+		}
+	}()
+	opts := vfProductOptions()
+	AddOptionsFromEnvironmentVariables(&opts)
+	clone := tb.NoCloseClone()
+	opts.Scopes = GetScopesOptions(t, tb, 1)
+	mutate(&opts)
+	ctx := base.TestCtx(t)
+	dbc, err := NewDatabaseContext(ctx, "db", wrap(clone), false, opts)
+	if err != nil {
+		return nil, fmt.Errorf("NewDatabaseContext: %w", err)
+	}
+	ctx = dbc.AddDatabaseLogContext(ctx)
+	if err := dbc.StartOnlineProcesses(ctx); err != nil {
+		dbc.Close(ctx)
+		return nil, fmt.Errorf("StartOnlineProcesses: %w", err)
+	}
+	database, _ := CreateDatabase(dbc)
+	ctx = addDatabaseAndTestUserContext(ctx, database)
+	if len(dbc.CollectionByID) != 1 {
+		dbc.Close(ctx)
+		return nil, fmt.Errorf("expected one collection, have %d", len(dbc.CollectionByID))
+	}
+	var dc *DatabaseCollection
+	for _, c := range dbc.CollectionByID {
+		dc = c
+	}
+	coll := &DatabaseCollectionWithUser{DatabaseCollection: dc}
+	ctx = coll.AddCollectionContext(ctx)
+	if _, err := dc.UpdateSyncFun(ctx, vfDefaultSyncFn); err != nil {
+		dbc.Close(ctx)
+		return nil, fmt.Errorf("UpdateSyncFun: %w", err)
+	}
+	return &vfEnv{T: t, Bucket: clone, Ctx: ctx, DBC: dbc, DB: database, Coll: coll}, nil
+}
+
+func vfC14OpenCase(t *testing.T, rt *rapid.T, lease *vfC14Lease, test string, conflicts, ccv bool, revsLimit uint32) *vfC14Case {
 	c := &vfC14Case{test: test, rt: rt, conflicts: conflicts, ccv: ccv, revsLimit: revsLimit,
-		docIDs: []string{"d1", "d2"}, docs: map[string]*vfC14Doc{}, classes: map[string]bool{}}
+		docIDs: []string{"d1", "d2"}, docs: map[string]*vfC14Doc{}, classes: map[string]bool{}, dirtyDocs: map[string]bool{}}
 	for _, id := range c.docIDs {
 		c.docs[id] = vfC14NewDoc(id)
 	}
 	for _, b := range vfC14Pool {
 		c.contentIndex(b)
 	}
-	env, err := vfOpen(t, vfDBConfig{
-		Mutate: func(o *DatabaseContextOptions) { o.AllowConflicts = base.Ptr(conflicts) },
-		WrapBucket: func(b base.Bucket) base.Bucket {
+	tb := lease.bucket()
+	c.prefix = fmt.Sprintf("k%d.", lease.caseNo)
+	env, err := vfC14OpenOn(t, tb,
+		func(o *DatabaseContextOptions) { o.AllowConflicts = base.Ptr(conflicts) },
+		func(b base.Bucket) base.Bucket {
 			c.w = vs.Wrap(b)
 			return c.w
-		},
-	})
+		})
 	if err != nil {
 		rt.Fatalf("HARNESS (not a verdict): open database: %v", err)
 	}
@@ -859,9 +1167,21 @@ func TestVerif_C14_Lifetime(t *testing.T) {
 	defer rec.Flush()
 	known13 := kit.Known(vfC14ID, vfC14Sig13)
 	knownPromo := kit.Known(vfC14ID, vfC14SigPromo)
+	knownLeak := kit.Known(vfC14ID, vfC14SigLeak)
+	lease := &vfC14Lease{t: t}
+	defer lease.release()
+	// scheduling aid only (decides nothing): the state machine is one sequential goroutine; on the shared,
+	// oversubscribed machine most of the process' CPU time otherwise goes into idle Ps looking for work,
+	// parallel GC cycles over a few MB of heap and the scavenger
+	// a database context started on a bucket that already has a sequence counter otherwise sleeps 1.5 s
+	// ("sequences reserved by other nodes"): single node here, and nothing of C14 is about sequences
+	defer BypassReleasedSequenceWait.Store(BypassReleasedSequenceWait.Swap(true))
+	defer runtime.GOMAXPROCS(runtime.GOMAXPROCS(2))
+	defer debug.SetGCPercent(debug.SetGCPercent(800))
 	rapid.Check(t, func(rt *rapid.T) {
 		conflicts := rapid.Bool().Draw(rt, "allow_conflicts")
-		ccv := rapid.Bool().Draw(rt, "ccv")
+		// (the obsolete-attachment sweep runs with the flag off: two cases of three)
+		ccv := rapid.IntRange(0, 2).Draw(rt, "ccv") == 0
 		var revsLimit uint32
 		if conflicts {
 			// the product refuses revs_limit < 20 when conflicts are allowed
@@ -869,14 +1189,22 @@ func TestVerif_C14_Lifetime(t *testing.T) {
 		} else {
 			revsLimit = rapid.SampledFrom([]uint32{1, 2, 3, 5, 50}).Draw(rt, "revs_limit")
 		}
-		c := vfC14OpenCase(t, rt, test, conflicts, ccv, revsLimit)
+		// dangling stubs are drawn in one case of three: while the listed finding about them is open a document
+		// that accepted one loses the "cleaned up" direction, which the other cases keep throughout
+		dangling := rapid.IntRange(0, 2).Draw(rt, "dangling-stubs") == 0
+		c := vfC14OpenCase(t, rt, lease, test, conflicts, ccv, revsLimit)
 		defer c.env.Close()
-		c.known13, c.knownPromo = known13, knownPromo
+		c.known13, c.knownPromo, c.knownLeak, c.dangling = known13, knownPromo, knownLeak, dangling
+		if dangling {
+			c.ops[0] += " dangling-stubs"
+			c.class("dangling-stubs-in-alphabet")
+		}
 		rt.Repeat(map[string]func(*rapid.T){
-			"write":      func(rt *rapid.T) { c.stepWrite(rt, 0) },
-			"write2":     func(rt *rapid.T) { c.stepWrite(rt, 0) },
-			"writeRetry": func(rt *rapid.T) { c.stepWrite(rt, 1) },
-			"writeRace":  func(rt *rapid.T) { c.stepWrite(rt, 2) },
+			"write":       func(rt *rapid.T) { c.stepWrite(rt, 0) },
+			"write2":      func(rt *rapid.T) { c.stepWrite(rt, 0) },
+			"writeRetry":  func(rt *rapid.T) { c.stepWrite(rt, 1) },
+			"writeRace":   func(rt *rapid.T) { c.stepWrite(rt, 2) },
+			"writeWindow": func(rt *rapid.T) { c.stepWrite(rt, 3) },
 			"": func(rt *rapid.T) {
 				c.rt = rt
 				if c.dirty {
